@@ -1464,7 +1464,7 @@ func c03CommandRules(c *ctx, desc map[string]any, i int, im, om vl.OMap, st *pip
 		}
 	}
 	nested("matrix", map[string]bool{"setup": true, "adjustments": true}, st.Matrix != nil)
-	nested("cache", map[string]bool{"name": true, "paths": true, "size": true, "disabled": true}, st.Cache != nil && !st.Cache.Disabled)
+	nested("cache", map[string]bool{"name": true, "paths": true, "size": true, "disabled": true}, st.Cache != nil) // (a disabled cache is written `false` only when it holds nothing else: fix F18)
 	// plugins: ordered list of single-entry objects keyed by canonical source, empty config as null
 	if pl, ok := findKV(om, "plugins"); ok {
 		l, _ := pl.([]any)
